@@ -300,7 +300,10 @@ func (pm *ProviderManager) getProviderSetForKey(ctx context.Context, k []byte) (
 		return nil, err
 	}
 
-	if len(pset.providers) > 0 {
+	// A set built from a scan that hit an error (e.g. one cut short because the
+	// caller's context ended) may lack providers: later queries must read the
+	// datastore again rather than be served from it.
+	if len(pset.providers) > 0 && !pset.incomplete {
 		pm.cache.Add(string(k), pset)
 	}
 
@@ -325,6 +328,7 @@ func loadProviderSet(ctx context.Context, dstore ds.Datastore, provideValidity t
 		}
 		if e.Error != nil {
 			log.Error("got an error: ", e.Error)
+			out.incomplete = true
 			continue
 		}
 
